@@ -39,8 +39,15 @@ func runE2E(c *rig.Ctx, cs Case) (out e2eOut, f *failure) {
 			"tok": &user.DefaultInfo{Name: "alice", Groups: []string{"system:authenticated"}}})})
 		defer g.Close()
 		uc := e2e.Cluster("c06.local", up.URL())
-		uc.Spec.DispatchPolicies[0].FlowControlSchemaName = schemaName
-		uc.Spec.FlowControl = proxyv1alpha1.FlowControl{Schemas: []proxyv1alpha1.FlowControlSchema{schema(schemaName, cs.QPS, cs.Burst, "")}}
+		name, other := cs.SchemaName, cs.OtherName
+		if name == "" {
+			name = schemaName
+		}
+		uc.Spec.DispatchPolicies[0].FlowControlSchemaName = name
+		uc.Spec.FlowControl = proxyv1alpha1.FlowControl{Schemas: []proxyv1alpha1.FlowControlSchema{schema(name, cs.QPS, cs.Burst, "")}}
+		if other != "" && other != name {
+			uc.Spec.FlowControl.Schemas = append(uc.Spec.FlowControl.Schemas, schema(other, 100000, 100000, ""))
+		}
 		out.T0 = mono() // before the bucket exists
 		if _, err := g.AddCluster(uc, e2e.AlwaysReady, true); err != nil {
 			rigErr = "AddCluster: " + err.Error()
@@ -172,6 +179,18 @@ func e2eCases(c *rig.Ctx) []Case {
 	for i := 0; i < n; i++ {
 		q := rig.Pick(c.Rng, []int{1, 2, 10, 50, 300, 1000})
 		cases = append(cases, Case{Kind: "e2e", QPS: q, Burst: q + c.Rng.Intn(q+3), Conc: 1 + c.Rng.Intn(24), DurMs: 300 + c.Rng.Intn(900)})
+	}
+	// every cluster carries a second schema whose name collides with the observed one under some normalisation
+	// (or is a built-in name), with wide numbers, listed (and synced) after it; e2eshape: one pair per shape
+	for i := range cases {
+		nm := pickNames(c.Rng, 2)
+		cases[i].SchemaName, cases[i].OtherName = nm[0], nm[1]
+		if cases[i].Kind == "e2eshape" {
+			for k := 0; k < 12; k++ {
+				cases[i].Names = append(cases[i].Names, pickNames(c.Rng, 2)...)
+			}
+			cases[i].Names = append(cases[i].Names, "system-default", "System-Default", "Batch", "batch")
+		}
 	}
 	return cases
 }
